@@ -132,40 +132,106 @@ def tries_in_order(fn):
     return out
 
 
-def raised_class(mod, handler, qual):
-    body = handler.body
-    if len(body) == 1 and isinstance(body[0], ast.Pass):
-        return PASS
-    raises = []
+_NEUTRAL = (ast.Pass, ast.Assign, ast.AnnAssign, ast.AugAssign, ast.Delete, ast.Global, ast.Nonlocal)
 
-    def visit(node):
-        for ch in ast.iter_child_nodes(node):
-            if isinstance(ch, (ast.FunctionDef, ast.AsyncFunctionDef, ast.Lambda, ast.ClassDef, ast.Try)):
-                raise TranslateError(f"{qual}: nested definition/try inside an except handler")
-            if isinstance(ch, ast.Raise):
-                raises.append(ch)
-            visit(ch)
 
-    visit(handler)
-    if not raises or not isinstance(body[-1], ast.Raise):
-        raise TranslateError(f"{qual}: except handler does not end with a raise")
-    names = set()
-    for r in raises:
-        if r.exc is None:
-            names.add(None)
-        elif isinstance(r.exc, ast.Call) and isinstance(r.exc.func, ast.Name):
-            names.add(r.exc.func.id)
+def _find_helper(mod, cls_node, func):
+    """the FunctionDef a call refers to: self.name / cls.name / ClassName.name (method of the same class) or a module
+    level function; None when it is something else"""
+    if isinstance(func, ast.Attribute) and isinstance(func.value, ast.Name) and cls_node is not None \
+            and func.value.id in ("self", "cls", cls_node.name):
+        found = [n for n in cls_node.body if isinstance(n, ast.FunctionDef) and n.name == func.attr]
+        return found[0] if len(found) == 1 else None
+    if isinstance(func, ast.Name):
+        found = [n for n in mod.tree.body if isinstance(n, ast.FunctionDef) and n.name == func.id]
+        return found[0] if len(found) == 1 else None
+    return None
+
+
+def _class_of_call(mod, call, qual):
+    """X for an expression X(...) where X is an exception class of the universe; None otherwise"""
+    if isinstance(call, ast.Call) and isinstance(call.func, ast.Name):
+        try:
+            obj = mod.resolve_name(call.func.id)
+        except TranslateError:
+            return None
+        if _is_exc_class(obj):
+            if not excodes.in_universe(obj):
+                raise TranslateError(f"{qual}: handler raises {call.func.id}, not a class of the universe")
+            return excodes.BY_CLASS[obj]
+    return None
+
+
+def _returned_classes(mod, fn, qual):
+    """classes of the exception objects a helper returns (every return must be `return X(...)`)"""
+    out = set()
+    for n in ast.walk(fn):
+        if isinstance(n, ast.Return):
+            c = _class_of_call(mod, n.value, qual) if n.value is not None else None
+            if c is None:
+                raise TranslateError(f"{qual}: helper {fn.name} returns something that is not `X(...)`")
+            out.add(c)
+    if not out:
+        raise TranslateError(f"{qual}: helper {fn.name} returns nothing")
+    return out
+
+
+def _outcomes(mod, cls_node, stmts, excname, qual, depth):
+    """Outcomes of a statement list on every path: ("raise", code) | ("reraise",) | ("fall",) = control leaves the
+    handler without an exception (pass / continue) | ("next",) = reaches the end of the list."""
+    cur = {("next",)}
+    done = set()
+    for st in stmts:
+        if ("next",) not in cur:
+            break
+        cur.discard(("next",))
+        if isinstance(st, _NEUTRAL) or (isinstance(st, ast.Expr) and isinstance(st.value, ast.Constant)):
+            new = {("next",)}
+        elif isinstance(st, ast.Continue):
+            new = {("fall",)}
+        elif isinstance(st, ast.Raise):
+            if st.exc is None or (isinstance(st.exc, ast.Name) and st.exc.id == excname):
+                new = {("reraise",)}
+            else:
+                c = _class_of_call(mod, st.exc, qual)
+                if c is not None:
+                    new = {("raise", c)}
+                else:
+                    helper = _find_helper(mod, cls_node, st.exc.func) if isinstance(st.exc, ast.Call) else None
+                    if helper is None or depth > 0:
+                        raise TranslateError(f"{qual}: unsupported raise expression in handler")
+                    new = {("raise", c2) for c2 in _returned_classes(mod, helper, qual)}
+        elif isinstance(st, ast.If):
+            new = _outcomes(mod, cls_node, st.body, excname, qual, depth) | _outcomes(mod, cls_node, st.orelse, excname, qual, depth)
+        elif isinstance(st, ast.Expr) and isinstance(st.value, ast.Call):
+            helper = _find_helper(mod, cls_node, st.value.func)
+            if helper is None:
+                new = {("next",)}          # a call that is not one of our helpers (logging ...): neutral
+            elif depth > 0:
+                raise TranslateError(f"{qual}: helper calls nested more than one level")
+            else:
+                new = _outcomes(mod, cls_node, helper.body, None, qual, depth + 1)
+                if ("reraise",) in new or ("fall",) in new:
+                    raise TranslateError(f"{qual}: helper {helper.name} re-raises or continues")
         else:
-            raise TranslateError(f"{qual}: unsupported raise expression in handler")
-    if len(names) != 1:
-        raise TranslateError(f"{qual}: handler raises different classes {names}")
-    name = names.pop()
-    if name is None:
+            raise TranslateError(f"{qual}: unsupported statement {type(st).__name__} in an except handler")
+        done |= new - {("next",)}
+        cur = new & {("next",)}
+    return done | cur
+
+
+def raised_class(mod, handler, qual, cls_node=None):
+    """PASS (the exception is swallowed), RERAISE, or the code of the class every path of the handler raises."""
+    outs = _outcomes(mod, cls_node, handler.body, handler.name, qual, 0)
+    outs = {("fall",) if o == ("next",) else o for o in outs}
+    if len(outs) != 1:
+        raise TranslateError(f"{qual}: the paths of an except handler end differently: {sorted(map(str, outs))}")
+    o = outs.pop()
+    if o == ("fall",):
+        return PASS
+    if o == ("reraise",):
         return RERAISE
-    obj = mod.resolve_name(name)
-    if not _is_exc_class(obj) or not excodes.in_universe(obj):
-        raise TranslateError(f"{qual}: handler raises {name}, not a class of the universe")
-    return excodes.BY_CLASS[obj]
+    return o[1]
 
 
 def sites_of(mod, qualname, expect):
@@ -187,7 +253,7 @@ def sites_of(mod, qualname, expect):
                 for c in classes:
                     if not excodes.in_universe(c):
                         raise TranslateError(f"{qualname}: class {c!r} named in an except clause is not in the universe")
-            hs.append((classes, raised_class(mod, h, qualname)))
+            hs.append((classes, raised_class(mod, h, qualname, cls_node)))
         out.append(hs)
     return out
 
@@ -214,8 +280,48 @@ def zl(codes):
     return "[" + "; ".join(f"{c}" for c in codes) + "]"
 
 
+class _Disagree(Exception):
+    pass
+
+
+def _through(handlers, k):
+    for caught, raised in handlers:
+        codes = sorted(caught) if type(caught).__name__ == "Codes" else (None if caught == PARAM else excodes.caught_by(caught))
+        if codes is not None and k in codes:
+            return raised
+    return k
+
+
+def _semantic_diff(a, b):
+    """'' when the two table values have the same effect on every probed class"""
+    from . import c06probe
+    if isinstance(a, dict):
+        for key in a:
+            d = _semantic_diff(a[key], b[key])
+            if d:
+                return f"{key}: {d}"
+        return ""
+    if isinstance(a, int) or isinstance(b, int):
+        return "" if a == b else f"{a} vs {b}"
+    if a and isinstance(a[0], list):        # list of try statements
+        if len(a) != len(b):
+            return "different number of try statements"
+        for i, (x, y) in enumerate(zip(a, b)):
+            d = _semantic_diff(x, y)
+            if d:
+                return f"try #{i}: {d}"
+        return ""
+    bad = [excodes.NAME[k] for k, _c in c06probe.probe_classes() if _through(a, k) != _through(b, k)]
+    return ("classes " + ", ".join(bad[:6])) if bad else ""
+
+
+METHODS = {}      # definition name -> "ast" | "behavioural" (filled by generate(), reported in the evidence)
+
+
 def site_coq(site, qual):
     classes, raised = site
+    if type(classes).__name__ == "Codes":
+        return f"({zl(sorted(classes))}, {raised})"
     if classes == PARAM:
         raise TranslateError(f"{qual}: unexpected constructor parameter in an except clause")
     return f"({zl(excodes.caught_by(classes))}, {raised})"
@@ -247,69 +353,129 @@ def generate() -> str:
 
     T = "list (list Z * Z)%type"        # one try statement: its handlers
 
-    def site_list(name, mod, qual, expect, pick=None):
+    from . import c06probe
+    METHODS.clear()
+
+    def with_fallback(name, ast_fn, probe_fn):
+        """AST first; a shape outside the fragment falls back on running the real method with probes"""
+        try:
+            if os.environ.get("VERIF_C06_FORCE_BEHAVIOURAL") == "1" and probe_fn is not None:
+                raise TranslateError("AST translation disabled by VERIF_C06_FORCE_BEHAVIOURAL")
+            val = ast_fn()
+            METHODS[name] = "ast"
+            if probe_fn is not None:
+                # cross-check: what the AST says the try statements do must be what the real method does
+                try:
+                    beh = probe_fn()
+                except Exception:
+                    beh = None          # the probe is only a fallback: its failure is not an alarm
+                if beh is not None:
+                    diff = _semantic_diff(val, beh)
+                    if diff:
+                        raise _Disagree(f"{name}: the except clauses as read from the AST and the behaviour of the real method "
+                                        f"disagree: {diff}")
+                    METHODS[name] = "ast (probe agrees)"
+            return val
+        except _Disagree as exc:
+            raise TranslateError(str(exc))
+        except TranslateError as ast_err:
+            if probe_fn is None:
+                raise
+            try:
+                val = probe_fn()
+            except TranslateError as probe_err:
+                raise TranslateError(f"{ast_err} ; behavioural fallback: {probe_err}")
+            except Exception as exc:
+                raise TranslateError(f"{ast_err} ; behavioural fallback crashed: {type(exc).__name__}: {exc}")
+            METHODS[name] = "behavioural"
+            out.append(f"(* {name}: (behavioural) the AST translator said: {str(ast_err)[:160].replace('*)', '* )').replace(chr(34), chr(39))} *)")
+            return val
+
+    def site_list(name, mod, qual, expect, pick=None, probe=None):
         """list of try statements"""
-        sites = sites_of(mod, qual, expect)
-        if pick is not None:
-            sites = [sites[i] for i in pick]
+        def ast_fn():
+            sites = sites_of(mod, qual, expect)
+            if pick is not None:
+                sites = [sites[i] for i in pick]
+            for s in sites:
+                try_coq(s, qual)
+            return sites
+        sites = with_fallback(name, ast_fn, probe)
         defn(name, f"list ({T})", "[" + "; ".join(try_coq(s, qual) for s in sites) + "]")
         return sites
 
-    def one_site(name, mod, qual, expect, idx):
-        sites = sites_of(mod, qual, expect)
-        defn(name, T, try_coq(sites[idx], qual))
-        return sites[idx]
+    def one_site(name, mod, qual, expect, idx, probe=None):
+        def ast_fn():
+            s = sites_of(mod, qual, expect)[idx]
+            try_coq(s, qual)
+            return s
+        site = with_fallback(name, ast_fn, probe)
+        defn(name, T, try_coq(site, qual))
+        return site
 
     defn("c_DeserializeError", "Z", str(excodes.BY_CLASS[excodes.CLASS[40]]))
     defn("c_EOFError", "Z", "12")
     defn("exception_codes", "list Z", zl(excodes.caught_by([Exception])))
     defn("deserialize_codes", "list Z", zl(excodes.caught_by([excodes.CLASS[40]])))
     # JSON: [str(); decoder.decode]
-    site_list("json_oneshot", js, "JSONSerializer.deserialize", 2)
-    site_list("json_incr", js, "JSONSerializer.incremental_deserialize", 2)
+    site_list("json_oneshot", js, "JSONSerializer.deserialize", 2, probe=lambda: c06probe.json_sites("oneshot"))
+    site_list("json_incr", js, "JSONSerializer.incremental_deserialize", 2, probe=lambda: c06probe.json_sites("incr"))
     # line: [str()]
-    site_list("line_oneshot", ln, "StringLineSerializer.deserialize", 1)
-    site_list("line_incr", ln, "StringLineSerializer.incremental_deserialize", 1)
-    site_list("line_buf", ln, "StringLineSerializer.buffered_incremental_deserialize", 1)
+    site_list("line_oneshot", ln, "StringLineSerializer.deserialize", 1, probe=lambda: c06probe.line_sites("oneshot"))
+    site_list("line_incr", ln, "StringLineSerializer.incremental_deserialize", 1, probe=lambda: c06probe.line_sites("incr"))
+    site_list("line_buf", ln, "StringLineSerializer.buffered_incremental_deserialize", 1, probe=lambda: c06probe.line_sites("buf"))
     # struct: [Struct.unpack] ; NamedTuple: [str() of the string fields]
     site_list("struct_oneshot", st, "AbstractStructSerializer.deserialize", 1)
-    site_list("namedtuple_from_tuple", st, "NamedTupleStructSerializer.from_tuple", 1)
+    site_list("namedtuple_from_tuple", st, "NamedTupleStructSerializer.from_tuple", 1, probe=c06probe.namedtuple_sites)
     # base classes: the handler around self.deserialize(data)
-    one_site("fixed_incr", bs, "FixedSizePacketSerializer.incremental_deserialize", 1, 0)
-    one_site("fixed_buf", bs, "FixedSizePacketSerializer.buffered_incremental_deserialize", 1, 0)
-    one_site("autosep_incr", bs, "AutoSeparatedPacketSerializer.incremental_deserialize", 1, 0)
-    one_site("autosep_buf", bs, "AutoSeparatedPacketSerializer.buffered_incremental_deserialize", 1, 0)
+    one_site("fixed_incr", bs, "FixedSizePacketSerializer.incremental_deserialize", 1, 0, probe=lambda: c06probe.base_site("fixed", "incr"))
+    one_site("fixed_buf", bs, "FixedSizePacketSerializer.buffered_incremental_deserialize", 1, 0, probe=lambda: c06probe.base_site("fixed", "buf"))
+    one_site("autosep_incr", bs, "AutoSeparatedPacketSerializer.incremental_deserialize", 1, 0, probe=lambda: c06probe.base_site("autosep", "incr"))
+    one_site("autosep_buf", bs, "AutoSeparatedPacketSerializer.buffered_incremental_deserialize", 1, 0, probe=lambda: c06probe.base_site("autosep", "buf"))
     # base64: [b64decode]
     site_list("base64_oneshot", b64, "Base64EncoderSerializer.deserialize", 1)
     # pickle: [Unpickler.load]
-    site_list("pickle_oneshot", pk, "PickleSerializer.deserialize", 1)
+    site_list("pickle_oneshot", pk, "PickleSerializer.deserialize", 1, probe=c06probe.pickle_sites)
     # file based: one try statement with the handlers EOFError, self.__expected_errors
-    fbo = sites_of(bs, "FileBasedPacketSerializer.deserialize", 1)[0]
-    need(len(fbo) == 2 and fbo[0][0] != PARAM and fbo[1][0] == PARAM,
-         "FileBasedPacketSerializer.deserialize: expected `except EOFError` then `except self.__expected_errors`")
-    need(set(fbo[0][0]) == {EOFError}, "FileBasedPacketSerializer.deserialize: first handler must catch exactly EOFError")
-    defn("fb_oneshot_eof_raised", "Z", str(fbo[0][1]))
-    defn("fb_oneshot_raised", "Z", str(fbo[1][1]))
-    fbi = sites_of(bs, "FileBasedPacketSerializer.__generic_incremental_deserialize", 1)[0]
-    need(len(fbi) == 2 and fbi[0][0] != PARAM and set(fbi[0][0]) == {EOFError} and fbi[0][1] == PASS,
-         "FileBased generic deserializer: first handler must be `except EOFError: pass`")
-    need(fbi[1][0] == PARAM, "FileBased generic deserializer: second handler must catch self.__expected_errors")
-    defn("fb_incr_raised", "Z", str(fbi[1][1]))
+    def fb_ast():
+        fbo = sites_of(bs, "FileBasedPacketSerializer.deserialize", 1)[0]
+        need(len(fbo) == 2 and fbo[0][0] != PARAM and fbo[1][0] == PARAM,
+             "FileBasedPacketSerializer.deserialize: expected `except EOFError` then `except self.__expected_errors`")
+        need(set(fbo[0][0]) == {EOFError}, "FileBasedPacketSerializer.deserialize: first handler must catch exactly EOFError")
+        fbi = sites_of(bs, "FileBasedPacketSerializer.__generic_incremental_deserialize", 1)[0]
+        need(len(fbi) == 2 and fbi[0][0] != PARAM and set(fbi[0][0]) == {EOFError} and fbi[0][1] == PASS,
+             "FileBased generic deserializer: first handler must be `except EOFError` that swallows the error")
+        need(fbi[1][0] == PARAM, "FileBased generic deserializer: second handler must catch self.__expected_errors")
+        return {"fb_oneshot_eof_raised": fbo[0][1], "fb_oneshot_raised": fbo[1][1], "fb_incr_raised": fbi[1][1]}
+
+    fbv = with_fallback("filebased", fb_ast, c06probe.filebased_values)
+    for key in ("fb_oneshot_eof_raised", "fb_oneshot_raised", "fb_incr_raised"):
+        need(isinstance(fbv[key], int) and fbv[key] >= 0, f"file based: {key} is not a class")
+        defn(key, "Z", str(fbv[key]))
+
     # compressors
-    czo = sites_of(cz, "AbstractCompressorSerializer.deserialize", 1)[0]
-    need(len(czo) == 1 and czo[0][0] == PARAM, "AbstractCompressorSerializer.deserialize: handler must catch self.__expected_error")
-    defn("cz_oneshot_raised", "Z", str(czo[0][1]))
-    czi = sites_of(cz, "AbstractCompressorSerializer.__generic_incremental_deserialize", 2)
-    need(len(czi[0]) == 1 and czi[0][0][0] == PARAM, "compressor generic deserializer: first try must catch self.__expected_error")
-    need(all(h[0] != PARAM for h in czi[1]), "compressor generic deserializer: second try must name its classes")
-    defn("cz_incr_raised", "Z", str(czi[0][0][1]))
-    defn("cz_incr_inner", T, try_coq(czi[1], "compressor inner"))
+    def cz_ast():
+        czo = sites_of(cz, "AbstractCompressorSerializer.deserialize", 1)[0]
+        need(len(czo) == 1 and czo[0][0] == PARAM, "AbstractCompressorSerializer.deserialize: handler must catch self.__expected_error")
+        czi = sites_of(cz, "AbstractCompressorSerializer.__generic_incremental_deserialize", 2)
+        need(len(czi[0]) == 1 and czi[0][0][0] == PARAM, "compressor generic deserializer: first try must catch self.__expected_error")
+        need(all(h[0] != PARAM for h in czi[1]), "compressor generic deserializer: second try must name its classes")
+        try_coq(czi[1], "compressor inner")
+        return {"cz_oneshot_raised": czo[0][1], "cz_incr_raised": czi[0][0][1], "cz_incr_inner": czi[1]}
+
+    czv = with_fallback("compressor", cz_ast, c06probe.compressor_values)
+    for key in ("cz_oneshot_raised", "cz_incr_raised"):
+        need(isinstance(czv[key], int) and czv[key] >= 0, f"compressor: {key} is not a class")
+    defn("cz_oneshot_raised", "Z", str(czv["cz_oneshot_raised"]))
+    defn("cz_incr_raised", "Z", str(czv["cz_incr_raised"]))
+    defn("cz_incr_inner", T, try_coq(czv["cz_incr_inner"], "compressor inner"))
     defn("zlib_expected", "list Z", zl(excodes.caught_by(super_init_kw(cz, "ZlibCompressorSerializer", "expected_decompress_error"))))
     defn("bz2_expected", "list Z", zl(excodes.caught_by(super_init_kw(cz, "BZ2CompressorSerializer", "expected_decompress_error"))))
     # protocols: first try statement = [IncrementalDeserializeError -> StreamProtocolParseError ; DeserializeError -> RuntimeError]
-    one_site("stream_protocol", pr, "StreamProtocol.build_packet_from_chunks", 2, 0)
-    one_site("bstream_protocol", pr, "BufferedStreamProtocol.build_packet_from_buffer", 2, 0)
-    one_site("dgram_protocol", pr, "DatagramProtocol.build_packet_from_datagram", 2, 0)
+    one_site("stream_protocol", pr, "StreamProtocol.build_packet_from_chunks", 2, 0, probe=lambda: c06probe.protocol_site("stream"))
+    one_site("bstream_protocol", pr, "BufferedStreamProtocol.build_packet_from_buffer", 2, 0, probe=lambda: c06probe.protocol_site("bstream"))
+    one_site("dgram_protocol", pr, "DatagramProtocol.build_packet_from_datagram", 2, 0, probe=lambda: c06probe.protocol_site("dgram"))
+    out.append("(* how each table was obtained: " + ", ".join(f"{k}={v}" for k, v in sorted(METHODS.items())) + " *)")
     defn("c_StreamProtocolParseError", "Z", "44")
     defn("c_DatagramProtocolParseError", "Z", "45")
     return "\n".join(out) + "\n"
